@@ -78,11 +78,9 @@ def apply : Kind → Str → FS → FS
 def findPrefix (names : List Str) (arg : Str) : Option Nat :=
   (names.find? (fun n => n.isPrefixOf arg)).map List.length
 
-/-- outcome of one iteration of the `for` loop -/
+/-- outcome of one iteration of the `for` loop; `consumed` = the index was advanced over the following
+    argument -/
 inductive Out where
-  /-- the code evaluates `args[args.size()]` (undefined behaviour) -/
-  | oob
-  /-- iteration finished; `consumed` = the index was advanced over the following argument -/
   | next (consumed : Bool) (fs : FS)
   deriving DecidableEq, Repr
 
@@ -92,8 +90,43 @@ inductive Out where
     `getOptArg` advances the *shared* index when the argument is exactly an option name.  If the
     following argument exists and is non-empty it is the option's value.  If it is empty the `if`
     fails with the index already advanced, and every later test looks at the empty argument (none can
-    match).  If there is no following argument the index equals `args.size()` and the next test binds
-    `args[i]` out of bounds — unless the test was the last one. -/
+    match).  If there is no following argument the index equals `args.size()`; since commit 0f74657 every
+    later `getOptArg` call returns "" at once (`if (i >= args.size()) return std::string();`), so the
+    iteration ends without effect.  (Before that commit the next test bound `args[i]` out of bounds:
+    `Before0f74657` below.) -/
+def runChecks : List (List Str × Kind) → Str → List Str → FS → Out
+  | [], _, _, fs => .next false fs
+  | (names, k) :: cs, arg, rest, fs =>
+    match findPrefix names arg with
+    | none => runChecks cs arg rest fs
+    | some n =>
+      if arg.length = n then
+        match rest with
+        | [] => .next false fs
+        | a :: _ => if a.isEmpty then .next true fs else .next true (apply k a fs)
+      else .next false (apply k (arg.drop n) fs)
+
+/-- the `for` loop of `parseArgs` -/
+def loop : List Str → FS → FS
+  | [], fs => fs
+  | arg :: rest, fs =>
+    match runChecks checks arg rest fs with
+    | .next false fs' => loop rest fs'
+    | .next true fs' =>
+      match rest with
+      | [] => fs'
+      | _ :: rest' => loop rest' fs'
+
+/-! the loop as it was before commit 0f74657 (kept for the side theorems only): a bare option name as
+    the last argument made every test but the last one (`-m`) read `args[args.size()]` -/
+namespace Before0f74657
+
+inductive Out where
+  /-- the code evaluates `args[args.size()]` (undefined behaviour) -/
+  | oob
+  | next (consumed : Bool) (fs : FS)
+  deriving DecidableEq, Repr
+
 def runChecks : List (List Str × Kind) → Str → List Str → FS → Out
   | [], _, _, fs => .next false fs
   | (names, k) :: cs, arg, rest, fs =>
@@ -106,7 +139,7 @@ def runChecks : List (List Str × Kind) → Str → List Str → FS → Out
         | a :: _ => if a.isEmpty then .next true fs else .next true (apply k a fs)
       else .next false (apply k (arg.drop n) fs)
 
-/-- the `for` loop of `parseArgs` -/
+/-- `none` = out-of-bounds read -/
 def loop : List Str → FS → Option FS
   | [], fs => some fs
   | arg :: rest, fs =>
@@ -117,6 +150,8 @@ def loop : List Str → FS → Option FS
       match rest with
       | [] => some fs'
       | _ :: rest' => loop rest' fs'
+
+end Before0f74657
 
 /-! ### `fsSetDefines` -/
 
@@ -166,9 +201,10 @@ def fsSetDefines (defs : Str) : Str :=
   let s4 := stripTrailingSemi s3
   if s4.isEmpty then [] else addOnes s4 false false
 
-/-- `ImportProject::parseArgs` on a fresh `FileSettings`; `none` = out-of-bounds read -/
-def parseArgs (args : List Str) : Option FS :=
-  (loop args {}).map fun fs => { fs with defs := fsSetDefines fs.defs }
+/-- `ImportProject::parseArgs` on a fresh `FileSettings` -/
+def parseArgs (args : List Str) : FS :=
+  let fs := loop args {}
+  { fs with defs := fsSetDefines fs.defs }
 
 /-! ### specification: what the options of a GCC-style command line mean -/
 namespace Spec
@@ -418,13 +454,11 @@ structure FileSetting where
 structure Result where
   ok : Bool
   errors : Nat
-  /-- an entry made `parseArgs` read out of bounds -/
-  oob : Bool
   files : List FileSetting
 
 /-- the loop over the entries of the database -/
 def importEntries : List Entry → Nat → List FileSetting → Result
-  | [], errs, acc => ⟨true, errs, false, acc⟩
+  | [], errs, acc => ⟨true, errs, acc⟩
   | e :: rest, errs, acc =>
     let d0 := fromNative e.dir
     let directory := if endsWithChar d0 '/' then d0 else d0 ++ ['/']
@@ -437,7 +471,7 @@ def importEntries : List Entry → Nat → List FileSetting → Result
         | .missingQuote => none
       | .neither => none
     match argsRes with
-    | none => ⟨false, errs + 1, false, acc⟩
+    | none => ⟨false, errs + 1, acc⟩
     | some arguments =>
       match e.file with
       | none => importEntries rest (errs + 1) acc
@@ -446,14 +480,72 @@ def importEntries : List Entry → Nat → List FileSetting → Result
         if !acceptFile file then importEntries rest errs acc
         else
           let path := if file.head? == some '/' then simplifyPath file else simplifyPath (directory ++ file)
-          match parseArgs arguments with
-          | none => ⟨true, errs, true, acc⟩
-          | some fs =>
-            let fs' := { fs with includePaths := fsSetIncludePaths directory fs.includePaths [] [] }
-            let fileId := (acc.filter fun x => x.path = path).length
-            importEntries rest errs (acc ++ [⟨path, fileId, fs'⟩])
+          let fs := parseArgs arguments
+          let fs' := { fs with includePaths := fsSetIncludePaths directory fs.includePaths [] [] }
+          let fileId := (acc.filter fun x => x.path = path).length
+          importEntries rest errs (acc ++ [⟨path, fileId, fs'⟩])
 
 end Import
+
+/-! ### the generative reading of the specification: a command line as a list of options -/
+
+/-- one option of a GCC-style command line as a build system writes it -/
+inductive Opt where
+  | inc (d : Str) (joined : Bool)      -- `-Id` / `-I d`
+  | sysinc (d : Str) (joined : Bool)   -- `-isystemd` / `-isystem d`
+  | define (d : Str) (joined : Bool)   -- `-Dd` / `-D d`
+  | undef (u : Str) (joined : Bool)    -- `-Uu` / `-U u`
+  | std (s : Str)                      -- `-std=s`
+  | flag (a : Str)                     -- `-fpic -fPIC -fpie -fPIE -municode`
+  | sepOther (o v : Str)               -- `-o v`, `-MF v`, `-include v` … (`o ∈ Spec.sepOpts`)
+  | other (a : Str)                    -- any other single argument: option or input file
+  deriving DecidableEq, Repr
+
+def Opt.render : Opt → List Str
+  | .inc d j => if j then ["-I".toList ++ d] else ["-I".toList, d]
+  | .sysinc d j => if j then ["-isystem".toList ++ d] else ["-isystem".toList, d]
+  | .define d j => if j then ["-D".toList ++ d] else ["-D".toList, d]
+  | .undef u j => if j then ["-U".toList ++ u] else ["-U".toList, u]
+  | .std s => ["-std=".toList ++ s]
+  | .flag a => [a]
+  | .sepOther o v => [o, v]
+  | .other a => [a]
+
+def render : List Opt → List Str
+  | [] => []
+  | o :: r => o.render ++ render r
+
+/-- what the option list asks for -/
+def meaning : List Opt → Spec.Opts → Spec.Opts
+  | [], o => o
+  | .inc d _ :: r, o => meaning r (o.addInc d)
+  | .sysinc d _ :: r, o => meaning r { o with sysIncludes := o.sysIncludes ++ [d] }
+  | .define d _ :: r, o => meaning r { o with defines := o.defines ++ [d] }
+  | .undef u _ :: r, o => meaning r { o with undefs := setInsert u o.undefs }
+  | .std s :: r, o => meaning r { o with std := s }
+  | .flag a :: r, o =>
+    match Spec.impliedDefine a with
+    | some d => meaning r { o with defines := o.defines ++ [d] }
+    | none => meaning r o
+  | .sepOther _ _ :: r, o => meaning r o
+  | .other _ :: r, o => meaning r o
+
+/-- none of the five interpreted option names is a prefix of `a` -/
+def notOption (a : Str) : Bool :=
+  !("-I".toList.isPrefixOf a) && !("-isystem".toList.isPrefixOf a) && !("-D".toList.isPrefixOf a) &&
+  !("-U".toList.isPrefixOf a) && !("-std=".toList.isPrefixOf a)
+
+/-- well-formedness of an option list: values are non-empty, and the arguments that are *meant* as
+    something else are not spelled like one of the interpreted options -/
+def Opt.wf : Opt → Bool
+  | .inc d _ => !d.isEmpty
+  | .sysinc d _ => !d.isEmpty
+  | .define d _ => !d.isEmpty
+  | .undef u _ => !u.isEmpty
+  | .std s => !s.isEmpty
+  | .flag a => (Spec.impliedDefine a).isSome
+  | .sepOther o _ => Spec.sepOpts.contains o && notOption o && (Spec.impliedDefine o).isNone
+  | .other a => notOption a && (Spec.impliedDefine a).isNone && !Spec.sepOpts.contains a
 
 /-! ### the inputs on which `parseArgs` and the specification are claimed to agree -/
 
@@ -474,7 +566,8 @@ def otherOk (a : Str) : Bool :=
   !(slashPrefixes.any fun p => p.isPrefixOf a) && a != "-f".toList && a != "-m".toList && a != "-std=".toList
 
 /-- the excluding hypothesis of `parseArgs_eq_spec_partial`, following GCC's reading of the vector:
-    * a separate `-I -isystem -D -U` has a non-empty value behind it (GCC: "missing path/macro name");
+    * a separate `-I -isystem -D -U` that is not the last argument has a non-empty value behind it
+      (GCC: "missing path/macro name"; as the last argument it is ignored by both);
     * no bare `-std=`, `-f`, `-m`;
     * no input file / other option starts with `/I /D /U /std:`;
     * the value of an option of `Spec.sepOpts` (`-o file`, `-include file`, `-MF file` …) starts with
@@ -484,23 +577,23 @@ def clean : List Str → Bool
   | [a] =>
     match Spec.form "-I".toList a with
     | .joined _ => true
-    | .sep => false
+    | .sep => true
     | .no =>
     match Spec.form "-isystem".toList a with
     | .joined _ => true
-    | .sep => false
+    | .sep => true
     | .no =>
     match Spec.form "-D".toList a with
     | .joined _ => true
-    | .sep => false
+    | .sep => true
     | .no =>
     match Spec.form "-U".toList a with
     | .joined _ => true
-    | .sep => false
+    | .sep => true
     | .no =>
     match Spec.form "-std=".toList a with
     | .joined _ => true
-    | .sep => false
+    | .sep => true
     | .no =>
     match Spec.impliedDefine a with
     | some _ => true
